@@ -35,6 +35,9 @@ GroupSet(s) ==
     [] s = "actions" ->    \* C01: every action constant
          [names : {<<0>>}, conds : {<<>>},
           act : NamedActions \cup {"user_notif", "unnamed"} \cup DataActions]
+    [] s = "kactions" ->   \* every action constant on the running kernel (C08): one or two groups, a permissive default
+         [names : {<<0>>, <<1>>}, conds : {<<>>},
+          act : NamedActions \cup {"user_notif", "unnamed"} \cup DataActions]
     [] s = "rich" ->       \* C03 (i): one rich conditional entry among other entries
          [names : NameLists(Sys),
           conds : {<<>>} \cup {<<Entry(n, l)>> : n \in Sys, l \in ListSet}
@@ -101,11 +104,12 @@ GroupSet(s) ==
 MaxGroups(s) ==
   CASE s \in {"groups"} -> 3
     [] s \in {"groups2"} -> 2
-    [] s \in {"many", "manywide", "subsume"} -> 2
+    [] s \in {"many", "manywide", "subsume", "kactions"} -> 2
     [] OTHER -> 1
 Defaults(s) ==
   CASE s = "actions" -> NamedActions
     [] s \in {"groups", "groups2"} -> {"allow", "errno"}
+    [] s = "kactions" -> {"allow", "log"}
     [] OTHER -> {"allow"}
 Targets(s) ==   \* values of pol.x86
   \* FALSE: the policy is compiled for an architecture other than x86_64 (the replay rotates i386, arm, aarch64: the two 32-bit
@@ -284,7 +288,7 @@ ExplicitPolicies(s) ==
 EventSeq(s) ==
   CASE s \in {"groups", "actions"} ->
          SetToSeq({Ev(ar, nr, NoArgs) : ar \in {"own", "other"}, nr \in 0..NrMax})
-    [] s \in {"groups2", "chain"} ->
+    [] s \in {"groups2", "chain", "kactions"} ->
          SetToSeq({Ev(ar, nr, NoArgs) : ar \in {"own", "other"}, nr \in 0..NrMax})
     [] s \in {"rich", "merge", "many", "manywide", "allops", "defects", "defects2", "deep", "pairs", "mergeops", "subsume"} ->
          SetToSeq({Ev(ar, nr, a) : ar \in {"own", "other"},
